@@ -196,6 +196,7 @@ func runC09(c *Ctx, w *World, r *Report) {
 			return
 		}
 		// the scan counter: the loop-header phi the elements of a are indexed with
+		var scanIdx ssa.Value // the index expression itself: the counter, or counter+1 in a `range` loop (go/ssa rotates those)
 		scanIV := func() *ssa.Phi {
 			var out *ssa.Phi
 			eachInstr(fn, func(ins ssa.Instruction) {
@@ -206,6 +207,7 @@ func runC09(c *Ctx, w *World, r *Report) {
 				if c, idx, ok := asElemLoad(v); ok && paramIndex(c) == 0 {
 					if iv, ok := fa.InductionOf(idx, ins.Block()); ok && iv.Phi != nil {
 						out = iv.Phi
+						scanIdx = idx
 					}
 				}
 			})
@@ -214,6 +216,9 @@ func runC09(c *Ctx, w *World, r *Report) {
 		for _, ret := range returnsOf(fn) {
 			for _, leaf := range fa.leavesOf(ret.Results[0], ret.Block(), 0) {
 				k, isC := constInt64(stripConv(leaf.V))
+				if isC && leafContradictsOwnTest(ret.Results[0], k, leaf.Conds) {
+					continue // `if r := cmp(..); r != 0 { return r }`: the alternative r = 0 does not return here
+				}
 				if !isC {
 					if call, ok := asCall(leaf.V, "bytes.Compare"); ok && paramIndex(call.Common().Args[0]) == 0 && paramIndex(call.Common().Args[1]) == 1 {
 						continue
@@ -242,13 +247,13 @@ func runC09(c *Ctx, w *World, r *Report) {
 							}
 						}
 						if exhausted {
-							d := fa.Lin(ivp).Sub(linAtom("call:builtin len(p0)"))
+							d := fa.Lin(scanIdx).Sub(linAtom("call:builtin len(p0)")) // the next index the scan would examine
 							bd := fa.boundsFrom(leaf.Conds, d)
 							okCov := bd.HasLo && bd.Lo >= 0
 							if !okCov && bd.HasLo && bd.Lo >= -1 {
 								// the last byte, compared equal on this path
 								for _, cd := range leaf.Conds {
-									if o, iv, ok := elemRel(cd); ok && o == int(opEQ) && iv == fa.VN(ivp) {
+									if o, iv, ok := elemRel(cd); ok && o == int(opEQ) && (iv == fa.VN(ivp) || iv == fa.VN(scanIdx)) {
 										okCov = true
 									}
 								}
@@ -747,4 +752,38 @@ func init() {
 		Quick:   []Config{cfgDefault, cfg386}, Thorough: []Config{cfgDefault, cfg386, cfgArm64},
 		Run: runC09,
 	})
+}
+
+// leafContradictsOwnTest: the returned value is a merge, this alternative of it is the constant k, and the path to the
+// return tests that very merge against a constant in a way k fails.
+func leafContradictsOwnTest(res ssa.Value, k int64, conds []Cond) bool {
+	for _, cd := range conds {
+		bo, ok := cd.V.(*ssa.BinOp)
+		if !ok {
+			continue
+		}
+		op, ok := tokOp(bo.Op)
+		if !ok {
+			continue
+		}
+		if !cd.Pol {
+			op = negOp(op)
+		}
+		var other ssa.Value
+		switch {
+		case stripConv(bo.X) == stripConv(res):
+			other = bo.Y
+		case stripConv(bo.Y) == stripConv(res):
+			other, op = bo.X, mirrorOp(op)
+		default:
+			continue
+		}
+		if _, isPhi := stripConv(res).(*ssa.Phi); !isPhi {
+			continue
+		}
+		if c, ok := constInt64(stripConv(other)); ok && !relHolds(k, op, c) {
+			return true
+		}
+	}
+	return false
 }
